@@ -162,6 +162,7 @@ pub async fn scenario(line: &str) -> String {
     "rawpeer" => rawpeer(&p).await,
     "slowdrip" => slowdrip(&p).await,
     "compat" => compat(&p).await,
+    "faultlocal" => faultlocal(&p).await,
     _ => "bad-op".to_string(),
   }
 }
@@ -410,4 +411,137 @@ async fn compat(p: &[&str]) -> String {
     let _ = std::fs::remove_file(ep.trim_start_matches("ipc://"));
   }
   out
+}
+
+/// `faultlocal <tcp|ipc|inproc> <fault>`
+/// A PULL socket binds; a healthy PUSH exchanges traffic with it before, during and after a fault injected
+/// through ANOTHER connection of the same PULL socket. Faults: `mismatch` (a PUB socket connects: wrong
+/// socket type), `garbage` (raw peer sends junk), `rst` (raw peer connects and drops), `halfgreeting`
+/// (raw peer sends half a greeting and goes silent), `badframe` (valid handshake, then an oversized header).
+/// Result: `healthy=ok` if every healthy message arrived in order, else an ORACLE-FAIL line.
+async fn faultlocal(p: &[&str]) -> String {
+  let transport = p[1];
+  let fault = p[2];
+  let ctx = Context::new().expect("ctx");
+  let pull = ctx.socket(SocketType::Pull).unwrap();
+  let _ = set_i32(&pull, o::RCVTIMEO, 2000).await;
+  let ep = match transport {
+    "tcp" => "tcp://127.0.0.1:0".to_string(),
+    "ipc" => format!("ipc:///tmp/{}.sock", unique_name("rzmq-verif-fl")),
+    _ => format!("inproc://{}", unique_name("faultlocal")),
+  };
+  if let Err(e) = pull.bind(&ep).await {
+    return format!("setup-error bind {}", err_class(&e));
+  }
+  let target = if transport == "tcp" { last_endpoint(&pull).await } else { ep.clone() };
+  let push = ctx.socket(SocketType::Push).unwrap();
+  let _ = set_i32(&push, o::SNDTIMEO, 2000).await;
+  if let Err(e) = push.connect(&target).await {
+    return format!("setup-error connect {}", err_class(&e));
+  }
+  let mut got = Vec::new();
+  let mut failure: Option<String> = None;
+  // phase 1: before the fault
+  for i in 0..3u8 {
+    if let Err(e) = push.send(Msg::from_vec(vec![b'h', i])).await {
+      failure = Some(format!("send-before {}", err_class(&e)));
+      break;
+    }
+  }
+  for _ in 0..3 {
+    match pull.recv().await {
+      Ok(m) => got.push(m.data().unwrap_or(&[]).to_vec()),
+      Err(e) => {
+        failure = Some(format!("recv-before {}", err_class(&e)));
+        break;
+      }
+    }
+  }
+  // the fault, on a second connection
+  let mut keep: Vec<Box<dyn std::any::Any + Send>> = Vec::new();
+  if failure.is_none() {
+    match fault {
+      "mismatch" => {
+        let bad = ctx.socket(SocketType::Pub).unwrap();
+        let _ = tokio::time::timeout(Duration::from_secs(3), bad.connect(&target)).await;
+        tokio::time::sleep(Duration::from_millis(150)).await;
+        keep.push(Box::new(bad));
+      }
+      "garbage" | "rst" | "halfgreeting" | "badframe" if transport == "tcp" => {
+        if let Ok(mut st) = TcpStream::connect(target.trim_start_matches("tcp://")).await {
+          match fault {
+            "garbage" => {
+              let _ = st.write_all(&[0x13u8; 200]).await;
+            }
+            "halfgreeting" => {
+              let _ = st.write_all(&[0xFF, 0, 0, 0, 0, 0, 0, 0, 0, 0x7F, 3, 0, b'N', b'U']).await;
+            }
+            "badframe" => {
+              let mut g = vec![0xFFu8, 0, 0, 0, 0, 0, 0, 0, 0, 0x7F, 3, 0];
+              g.extend_from_slice(b"NULL");
+              g.extend(std::iter::repeat(0u8).take(16 + 1 + 31));
+              g.extend_from_slice(b"\x04\x1a\x05READY\x0bSocket-Type\x00\x00\x00\x04PUSH");
+              g.extend_from_slice(&[0x02, 0xFF, 0xFF, 0xFF, 0xFF, 0xFF, 0xFF, 0xFF, 0xFF, 1, 2, 3]);
+              let _ = st.write_all(&g).await;
+            }
+            _ => {}
+          }
+          tokio::time::sleep(Duration::from_millis(100)).await;
+          if fault != "halfgreeting" {
+            drop(st);
+          } else {
+            keep.push(Box::new(st));
+          }
+        }
+        tokio::time::sleep(Duration::from_millis(100)).await;
+      }
+      _ => {}
+    }
+  }
+  // phase 2: after the fault
+  if failure.is_none() {
+    for i in 3..6u8 {
+      match tokio::time::timeout(Duration::from_secs(4), push.send(Msg::from_vec(vec![b'h', i]))).await {
+        Ok(Ok(())) => {}
+        Ok(Err(e)) => {
+          failure = Some(format!("send-after {}", err_class(&e)));
+          break;
+        }
+        Err(_) => {
+          failure = Some("send-after never-returned".into());
+          break;
+        }
+      }
+    }
+  }
+  if failure.is_none() {
+    for _ in 3..6 {
+      match tokio::time::timeout(Duration::from_secs(4), pull.recv()).await {
+        Ok(Ok(m)) => got.push(m.data().unwrap_or(&[]).to_vec()),
+        Ok(Err(e)) => {
+          failure = Some(format!("recv-after {}", err_class(&e)));
+          break;
+        }
+        Err(_) => {
+          failure = Some("recv-after never-returned".into());
+          break;
+        }
+      }
+    }
+  }
+  let want: Vec<Vec<u8>> = (0..6u8).map(|i| vec![b'h', i]).collect();
+  if failure.is_none() && got != want {
+    failure = Some(format!("healthy-traffic-mismatch got={}", got.len()));
+  }
+  drop(keep);
+  let _ = tokio::time::timeout(Duration::from_secs(5), push.close()).await;
+  let _ = tokio::time::timeout(Duration::from_secs(5), pull.close()).await;
+  let _ = tokio::time::timeout(Duration::from_secs(5), ctx.term()).await;
+  if transport == "ipc" {
+    let _ = std::fs::remove_file(ep.trim_start_matches("ipc://"));
+  }
+  match failure {
+    None => "healthy=ok".into(),
+    Some(f) => format!("ORACLE-FAIL key=failure-not-local:{}:{} {}", transport, fault, f),
+  }
 }
